@@ -155,73 +155,118 @@ def judgeLimits : List LRec → Nat → Option Nat
   | [], _ => none
   | r :: rest, i => if limitsOkB r then judgeLimits rest (i + 1) else some i
 
-/-! ## controllers of one output -/
+/-! ## controllers of the outputs of a node -/
 
 /-- how an operation takes over control -/
 inductive Takeover
-  | byInput (k : Nat)     -- input `k` took control
-  | bySelf                -- the output took control itself
+  | byInput (k : Nat)     -- input `k` took control of its output
+  | bySelf (o : Nat)      -- output `o` took control itself
   | no
   deriving Repr, DecidableEq, Inhabited
 
-/-- "at most one is marked as controlling it, the output names exactly that one" -/
-def SingleController (n : Nat) (cb : Option Nat) (act : Nat → Bool) : Prop :=
-  (∀ i, i < n → ∀ j, j < n → act i = true → act j = true → i = j) ∧
-  (∀ i, i < n → act i = true → cb = some i)
+/-- "among the modules able to drive one output at most one is marked as controlling it, the output names exactly
+that one" — for output `o`, whose `controlled_by` is `cb`; `outOf i` is the output input `i` is attached to -/
+def SingleController (n : Nat) (outOf : Nat → Nat) (o : Nat) (cb : Option Nat) (act : Nat → Bool) : Prop :=
+  (∀ i, i < n → ∀ j, j < n → (outOf i = o ∧ outOf j = o ∧ act i = true ∧ act j = true) → i = j) ∧
+  (∀ i, i < n → outOf i = o → act i = true → cb = some i)
+
+/-- … for every output of the node -/
+def AllSingle (n nout : Nat) (outOf : Nat → Nat) (cb : Nat → Option Nat) (act : Nat → Bool) : Prop :=
+  ∀ o, o < nout → SingleController n outOf o (cb o) act
 
 /-- "taking over control switches the previous controller off" (and marks the new one) -/
-def TakenOver (n : Nat) (t : Takeover) (cb : Option Nat) (act : Nat → Bool) : Prop :=
+def TakenOver (n : Nat) (outOf : Nat → Nat) (t : Takeover) (cb : Nat → Option Nat) (act : Nat → Bool) : Prop :=
   match t with
-  | .byInput k => cb = some k ∧ ∀ i, i < n → (act i = true ↔ i = k)
-  | .bySelf => cb = none ∧ ∀ i, i < n → act i = false
+  | .byInput k => cb (outOf k) = some k ∧ ∀ i, i < n → outOf i = outOf k → (act i = true ↔ i = k)
+  | .bySelf o => cb o = none ∧ ∀ i, i < n → outOf i = o → act i = false
   | .no => True
 
-/-- the stronger reading: whoever is named by the output is marked as controlling -/
-def NamesActive (n : Nat) (cb : Option Nat) (act : Nat → Bool) : Prop :=
-  ∀ k, cb = some k → k < n ∧ act k = true
+/-- the stronger reading: whoever is named by output `o` is one of its inputs and marked as controlling -/
+def NamesActive (n : Nat) (outOf : Nat → Nat) (o : Nat) (cb : Option Nat) (act : Nat → Bool) : Prop :=
+  ∀ k, cb = some k → k < n ∧ outOf k = o ∧ act k = true
 
-instance (n : Nat) (cb : Option Nat) (act : Nat → Bool) : Decidable (SingleController n cb act) :=
-  inferInstanceAs (Decidable ((∀ i, i < n → ∀ j, j < n → act i = true → act j = true → i = j) ∧
-    (∀ i, i < n → act i = true → cb = some i)))
+/-- the outputs are independent: an operation on output `o` (a write to it or to one of its inputs, a call of one of
+their methods) changes neither the `controlled_by` of another output nor the flag of an input of another output -/
+def OthersUntouched (n nout : Nat) (outOf : Nat → Nat) (o : Nat) (cbB cbA : Nat → Option Nat)
+    (actB actA : Nat → Bool) : Prop :=
+  (∀ o', o' < nout → o' ≠ o → cbA o' = cbB o') ∧ (∀ i, i < n → outOf i ≠ o → actA i = actB i)
 
-instance (n : Nat) (t : Takeover) (cb : Option Nat) (act : Nat → Bool) : Decidable (TakenOver n t cb act) :=
+instance (n : Nat) (outOf : Nat → Nat) (o : Nat) (cb : Option Nat) (act : Nat → Bool) :
+    Decidable (SingleController n outOf o cb act) :=
+  inferInstanceAs (Decidable (
+    (∀ i, i < n → ∀ j, j < n → (outOf i = o ∧ outOf j = o ∧ act i = true ∧ act j = true) → i = j) ∧
+    (∀ i, i < n → outOf i = o → act i = true → cb = some i)))
+
+instance (n nout : Nat) (outOf : Nat → Nat) (cb : Nat → Option Nat) (act : Nat → Bool) :
+    Decidable (AllSingle n nout outOf cb act) :=
+  inferInstanceAs (Decidable (∀ o, o < nout → SingleController n outOf o (cb o) act))
+
+instance (n : Nat) (outOf : Nat → Nat) (t : Takeover) (cb : Nat → Option Nat) (act : Nat → Bool) :
+    Decidable (TakenOver n outOf t cb act) :=
   match t with
-  | .byInput k => inferInstanceAs (Decidable (cb = some k ∧ ∀ i, i < n → (act i = true ↔ i = k)))
-  | .bySelf => inferInstanceAs (Decidable (cb = none ∧ ∀ i, i < n → act i = false))
+  | .byInput k => inferInstanceAs (Decidable (cb (outOf k) = some k ∧ ∀ i, i < n → outOf i = outOf k → (act i = true ↔ i = k)))
+  | .bySelf o => inferInstanceAs (Decidable (cb o = none ∧ ∀ i, i < n → outOf i = o → act i = false))
   | .no => isTrue trivial
 
-instance (n : Nat) (cb : Option Nat) (act : Nat → Bool) : Decidable (NamesActive n cb act) :=
-  inferInstanceAs (Decidable (∀ k, cb = some k → k < n ∧ act k = true))
+instance (n : Nat) (outOf : Nat → Nat) (o : Nat) (cb : Option Nat) (act : Nat → Bool) :
+    Decidable (NamesActive n outOf o cb act) :=
+  inferInstanceAs (Decidable (∀ k, cb = some k → k < n ∧ outOf k = o ∧ act k = true))
 
+instance (n nout : Nat) (outOf : Nat → Nat) (o : Nat) (cbB cbA : Nat → Option Nat) (actB actA : Nat → Bool) :
+    Decidable (OthersUntouched n nout outOf o cbB cbA actB actA) :=
+  inferInstanceAs (Decidable ((∀ o', o' < nout → o' ≠ o → cbA o' = cbB o') ∧ (∀ i, i < n → outOf i ≠ o → actA i = actB i)))
+
+/-- what is recorded for one operation on a node with several outputs -/
 structure CRec where
   takeover : Takeover
-  strong : Bool            -- no input was switched off behind the output's back so far: `NamesActive` is expected too
-  cb : Option Nat
+  target : Option Nat      -- the output the operation was issued on (directly or through one of its inputs)
+  strong : List Bool       -- per output: none of its inputs was switched off behind its back so far (`NamesActive` expected)
+  cbB : List (Option Nat)  -- `controlled_by` of every output before …
+  actB : List Bool         -- … and `control_active` of every input before the operation
+  cb : List (Option Nat)   -- after
   act : List Bool
   deriving Repr, DecidableEq, Inhabited
 
-def ControlOk (n : Nat) (r : CRec) : Prop :=
+def ControlOk (n nout : Nat) (outs : List Nat) (r : CRec) : Prop :=
+  let outOf := fun i => outs.getD i 0
+  let cb := fun o => (r.cb.getD o none)
   let act := fun i => r.act.getD i false
-  SingleController n r.cb act ∧ TakenOver n r.takeover r.cb act ∧ (r.strong = true → NamesActive n r.cb act)
+  AllSingle n nout outOf cb act ∧ TakenOver n outOf r.takeover cb act ∧
+  (∀ o, o < nout → r.strong.getD o false = true → NamesActive n outOf o (cb o) act) ∧
+  (∀ o, r.target = some o → OthersUntouched n nout outOf o (fun o => r.cbB.getD o none) cb (fun i => r.actB.getD i false) act)
 
-instance (n : Nat) (r : CRec) : Decidable (ControlOk n r) :=
-  inferInstanceAs (Decidable (SingleController n r.cb (fun i => r.act.getD i false) ∧
-    TakenOver n r.takeover r.cb (fun i => r.act.getD i false) ∧
-    (r.strong = true → NamesActive n r.cb (fun i => r.act.getD i false))))
+instance (n nout : Nat) (outs : List Nat) (r : CRec) : Decidable (ControlOk n nout outs r) :=
+  inferInstanceAs (Decidable (
+    AllSingle n nout (fun i => outs.getD i 0) (fun o => (r.cb.getD o none)) (fun i => r.act.getD i false) ∧
+    TakenOver n (fun i => outs.getD i 0) r.takeover (fun o => (r.cb.getD o none)) (fun i => r.act.getD i false) ∧
+    (∀ o, o < nout → r.strong.getD o false = true →
+      NamesActive n (fun i => outs.getD i 0) o (r.cb.getD o none) (fun i => r.act.getD i false)) ∧
+    (∀ o, r.target = some o → OthersUntouched n nout (fun i => outs.getD i 0) o (fun o => r.cbB.getD o none)
+      (fun o => (r.cb.getD o none)) (fun i => r.actB.getD i false) (fun i => r.act.getD i false))))
 
-def controlOkB (n : Nat) (r : CRec) : Bool := decide (ControlOk n r)
+def controlOkB (n nout : Nat) (outs : List Nat) (r : CRec) : Bool := decide (ControlOk n nout outs r)
 
-def judgeControl (n : Nat) : List CRec → Nat → Option Nat
+def judgeControl (n nout : Nat) (outs : List Nat) : List CRec → Nat → Option Nat
   | [], _ => none
-  | r :: rest, i => if controlOkB n r then judgeControl n rest (i + 1) else some i
+  | r :: rest, i => if controlOkB n nout outs r then judgeControl n nout outs rest (i + 1) else some i
 
 /-- which clause of the statement applies to an operation, given the flags before it -/
-def takeoverOf (n : Nat) (actBefore : Nat → Bool) : Frappy.Control.Op → Takeover
-  | .writeIn k guarded => if k < n then (if guarded && actBefore k then .no else .byInput k) else .no
-  | .writeOut => .bySelf
-  | .activate k => if k < n then .byInput k else .no
+def takeoverOf (cfg : Frappy.Control.Cfg) (actBefore : Nat → Bool) : Frappy.Control.Op → Takeover
+  | .writeIn k guarded =>
+    if Frappy.Control.validIn cfg k then (if guarded && actBefore k then .no else .byInput k) else .no
+  | .writeOut o => if o < cfg.nout then .bySelf o else .no
+  | .activate k => if Frappy.Control.validIn cfg k then .byInput k else .no
   | .deactivate _ => .no
-  | .selfControlled => .bySelf
-  | .updateTarget _ => .no
+  | .selfControlled o => if o < cfg.nout then .bySelf o else .no
+  | .updateTarget _ _ => .no
+
+/-- the output an operation is issued on -/
+def targetOf (cfg : Frappy.Control.Cfg) : Frappy.Control.Op → Nat
+  | .writeIn k _ => cfg.outOf k
+  | .writeOut o => o
+  | .activate k => cfg.outOf k
+  | .deactivate k => cfg.outOf k
+  | .selfControlled o => o
+  | .updateTarget o _ => o
 
 end Frappy.Spec.C18
